@@ -18,13 +18,15 @@ func classOf(t *TypeJ, v *ValJ) string {
 		return "pointer_to_named_scalar"
 	case c.zeroStruct:
 		return "zero_struct_below_pointer_or_map_in_struct_field"
+	case c.hollowNamed:
+		return "struct_field_of_named_type_holding_only_empty_slices_or_maps"
 	case c.omittedNamed:
 		return "omitted_struct_field_of_named_type"
 	}
 	return ""
 }
 
-type classifier struct{ uintptr, bigFloat, ptrString, ptrNamed, zeroStruct, omittedNamed bool }
+type classifier struct{ uintptr, bigFloat, ptrString, ptrNamed, zeroStruct, omittedNamed, hollowNamed bool }
 
 // the type literal of t mentions a named type (so rendering it registers an import unless it is the target package's own)
 func mentionsNamed(t *TypeJ) bool {
@@ -89,6 +91,24 @@ func rendersEmpty(t *TypeJ, v *ValJ) bool {
 	return true
 }
 
+// a slice or map that is empty but not nil, reached through struct fields only
+func holdsEmptyNonNil(t *TypeJ, v *ValJ) bool {
+	u := under(t)
+	switch u.K {
+	case "slice":
+		return !v.Nil && len(v.L) == 0
+	case "map":
+		return !v.Nil && len(v.M) == 0
+	case "struct":
+		for i := range v.L {
+			if i < len(u.Fields) && holdsEmptyNonNil(&u.Fields[i].T, &v.L[i]) {
+				return true
+			}
+		}
+	}
+	return false
+}
+
 // inField: below a struct field with no slice/array in between; viaPM: the parent is a pointer or a map
 func (c *classifier) walk(t *TypeJ, v *ValJ, inField, viaPM bool) {
 	u := under(t)
@@ -126,6 +146,9 @@ func (c *classifier) walk(t *TypeJ, v *ValJ, inField, viaPM bool) {
 		}
 		if inField && !viaPM && rendersEmpty(t, v) && mentionsNamed(t) {
 			c.omittedNamed = true // the field is omitted from the literal: its type's packages must not be imported (fixes/C10-6)
+			if holdsEmptyNonNil(t, v) {
+				c.hollowNamed = true // ... and it is not the zero value
+			}
 		}
 		for i := range v.L {
 			if i < len(u.Fields) {
